@@ -284,7 +284,7 @@ func lockPoint(fr *frame, what string) {
 		return
 	}
 	file := fr.i.prog.Fset.Position(fr.caller.fn.Pos()).Filename
-	if strings.Contains(file, "zz_verif") || !strings.Contains(file, "/repo/") || strings.Contains(file, "/verifh") {
+	if !inRepo(file) {
 		return
 	}
 	name := "lock:" + what
